@@ -83,6 +83,36 @@ class Check:
     def error(self, msg: str):
         self.errors.append(msg)
 
+    # ------------------------------------------------------------------ parallel sub-rules
+    def export(self):
+        return {"instances": self.instances, "violations": self.violations, "floors": self.floors,
+                "assumptions_used": self.assumptions_used, "notes": self.notes,
+                "analysed": {k: sorted(v) for k, v in self.analysed.items()}, "errors": self.errors}
+
+    def merge(self, d):
+        self.instances += d["instances"]
+        self.violations += d["violations"]
+        self.floors += d["floors"]
+        for a in d["assumptions_used"]:
+            if a not in self.assumptions_used:
+                self.assumptions_used.append(a)
+        self.notes.update(d["notes"])
+        for k, v in d["analysed"].items():
+            self.analysed.setdefault(k, set()).update(v)
+        self.errors += d["errors"]
+
+    def parallel(self, prog, tasks):
+        """tasks: list of callables f(chk, prog); each runs in a forked worker with a fresh Check."""
+        import multiprocessing as mp
+        global _PAR
+        _PAR = (self.pid, self.tier, prog, tasks)
+        ctx = mp.get_context("fork")
+        with ctx.Pool(min(16, len(tasks))) as pool:
+            for d in pool.map(_par_run, range(len(tasks))):
+                if "crash" in d:
+                    raise RuntimeError(d["crash"])
+                self.merge(d)
+
     # ------------------------------------------------------------------ finishing
     @staticmethod
     def _key(v):
@@ -171,3 +201,17 @@ class Check:
         print(f"OK property={self.pid} tier={self.tier} instances={obligations} rules={len(per_rule)} "
               f"functions={len(self.analysed['functions'])} known_findings={len(known_hit)} wall={wall:.2f}s")
         return 0
+
+
+_PAR = None
+
+
+def _par_run(i):
+    pid, tier, prog, tasks = _PAR
+    c = Check(pid, tier)
+    try:
+        tasks[i](c, prog)
+    except Exception as e:          # propagate as analysis error, never as a verdict
+        import traceback
+        return {"crash": f"{type(e).__name__}: {e}\n{traceback.format_exc()}"}
+    return c.export()
